@@ -420,6 +420,65 @@ fn collect_batch(delay_us: u64, res: similari::trackers::batch::PredictionBatchR
     (got, show_events())
 }
 
+
+/// pipelined use of a batch tracker: every batch is submitted as soon as the previous `predict` returned,
+/// the results are retrieved by another thread (which may lag by `delay_us` per batch).
+/// Returns per batch the results in arrival order, and how many submissions overlapped an unfinished retrieval.
+macro_rules! pipe_run {
+    ($s:expr, $batches:expr, $delay:expr, $obs_ty:ty, $mk:expr) => {{
+        let (ctx, crx) = std::sync::mpsc::channel::<(usize, similari::trackers::batch::PredictionBatchResult)>();
+        let retrieved = std::sync::Arc::new(std::sync::atomic::AtomicUsize::new(0));
+        let retrieved2 = retrieved.clone();
+        let delay: u64 = $delay;
+        let consumer = std::thread::spawn(move || {
+            let mut all: Vec<(usize, Vec<(u64, Vec<SortTrack>)>)> = Vec::new();
+            for (k, res) in crx {
+                if delay > 0 {
+                    std::thread::sleep(std::time::Duration::from_micros(delay));
+                }
+                let mut got = Vec::new();
+                for _ in 0..res.batch_size() {
+                    got.push(res.get());
+                }
+                retrieved2.fetch_add(1, std::sync::atomic::Ordering::SeqCst);
+                all.push((k, got));
+            }
+            all
+        });
+        let mut overlaps = 0usize;
+        for (k, scenes) in $batches.iter().enumerate() {
+            let (mut req, res) = PredictionBatchRequest::<$obs_ty>::new();
+            for (scene, dets) in scenes {
+                for d in dets {
+                    req.add(*scene, $mk(d));
+                }
+            }
+            if retrieved.load(std::sync::atomic::Ordering::SeqCst) < k {
+                overlaps += 1;
+            }
+            $s.predict(req);
+            let _ = ctx.send((k, res));
+        }
+        drop(ctx);
+        (consumer.join().ok(), overlaps)
+    }};
+}
+
+fn show_pipe(c: &mut TrkCtx, batches: &[Vec<(u64, Vec<DetIn>)>], all: Vec<(usize, Vec<(u64, Vec<SortTrack>)>)>, overlaps: usize) -> String {
+    let mut out = format!("PIPE {} OV {}", batches.len(), overlaps);
+    let mut all = all;
+    all.sort_by_key(|e| e.0);
+    for (k, got) in all {
+        out.push_str(&format!(" B {} {}", k, got.len()));
+        for (scene, recs) in got {
+            let dets = batches[k].iter().find(|e| e.0 == scene).map(|e| e.1.clone()).unwrap_or_default();
+            log_records(c, scene, &recs);
+            out.push_str(&format!(" S {} {}", scene, show_records(c, &dets, &recs)));
+        }
+    }
+    out
+}
+
 fn sort_wasted(c: &TrkCtx, tr: STrack) -> String {
     let wt: similari::trackers::sort::WastedSortTrack = tr.into();
     format!("{} {} {} {} {}", wt.id, wt.scene_id, wt.epoch, wt.length, nat_list(&wt.observed_boxes.iter().map(|b| tok_of(c, b)).collect::<Vec<_>>()))
@@ -677,6 +736,51 @@ pub fn exec(ctx: &mut Ctx, t: &mut Toks) -> String {
             c.t = tr;
             out.push_str(&trace_suffix);
             out
+        }
+        "pipe" => {
+            // `pipe delay_us nb (ns (scene n det*)*)*` — pipelined batches, results retrieved by another thread
+            let delay = t.u64();
+            let nb = t.usize();
+            let mut batches: Vec<Vec<(u64, Vec<DetIn>)>> = Vec::new();
+            for _ in 0..nb {
+                let ns = t.usize();
+                let mut scenes: Vec<(u64, Vec<DetIn>)> = Vec::new();
+                for _ in 0..ns {
+                    let scene = t.u64();
+                    let n = t.usize();
+                    let dets: Vec<DetIn> = (0..n).map(|_| det(c, t)).collect();
+                    scenes.push((scene, dets));
+                }
+                batches.push(scenes);
+            }
+            let b2 = batches.clone();
+            let tr = std::mem::take(&mut c.t);
+            match tr {
+                Trk::BatchSort(bs) => match with_watchdog(bs, 30, move |s: &mut BatchSort| {
+                    pipe_run!(s, b2, delay, (Universal2DBox, Option<i64>), |d: &DetIn| (d.bbox.clone(), d.custom))
+                }) {
+                    None => "PANIC pipelined batch submission / retrieval hung (30 s) or panicked".into(),
+                    Some((_, (None, _))) => "PANIC the retrieving thread panicked (a result was never delivered)".into(),
+                    Some((bs, (Some(all), ov))) => {
+                        c.t = Trk::BatchSort(bs);
+                        show_pipe(c, &batches, all, ov)
+                    }
+                },
+                Trk::BatchVisual(bs) => match with_watchdog(bs, 30, move |s: &mut BatchVisualSort| {
+                    pipe_run!(s, b2, delay, VisualSortObservation, |d| vobs(d))
+                }) {
+                    None => "PANIC pipelined batch submission / retrieval hung (30 s) or panicked".into(),
+                    Some((_, (None, _))) => "PANIC the retrieving thread panicked (a result was never delivered)".into(),
+                    Some((bs, (Some(all), ov))) => {
+                        c.t = Trk::BatchVisual(bs);
+                        show_pipe(c, &batches, all, ov)
+                    }
+                },
+                other => {
+                    c.t = other;
+                    "UNKNOWN-OP pipe on a simple tracker".into()
+                }
+            }
         }
         "consumer" => {
             c.consumer_delay_us = t.u64();
